@@ -54,8 +54,28 @@ def _gen_case(rng):
         far = rng.random() < 0.5
         pp.create_gen(net, b, p_mw=0.5, vm_pu=float(net.gen.vm_pu.at[i]) + (0.01 if far else 5e-6))
         malformed = "far" if far else "near"
+    # shunts whose power comes from net.shunt_characteristic_table next to ordinary stepped shunts
+    if rng.random() < 0.25:
+        import pandas as pd
+        nid = rng.randint(1, 2)
+        rows = []
+        for cid in range(nid):
+            for st in (1, 2, 3):
+                rows.append((cid, st, pf.g8(rng, -8, 8), pf.g8(rng, 0, 4)))
+        net["shunt_characteristic_table"] = pd.DataFrame(rows, columns=["id_characteristic", "step", "q_mvar", "p_mw"])
+        for cid in range(nid):
+            pp.create_shunt(net, rng.choice(buses), q_mvar=pf.g8(rng, -4, 4), p_mw=0.0, step=rng.randint(1, 3), max_step=3,
+                            vn_kv=rng.choice([None, 20.0, 10.0]), step_dependency_table=True, id_characteristic_table=cid,
+                            in_service=rng.random() < 0.9)
+        pp.create_shunt(net, rng.choice(buses), q_mvar=pf.g8(rng, -8, 8), p_mw=pf.g8(rng, 1, 4), step=rng.choice([2, 3]), max_step=3,
+                        vn_kv=rng.choice([None, 10.0]))
     opts = {"numba": False, "enforce_q_lims": rng.choice([False, True, True, 2]), "voltage_depend_loads": rng.random() < 0.7,
             "calculate_voltage_angles": rng.random() < 0.8}
+    # the PYPOWER algorithms (runpf_pypower) have their own q-limit handling
+    if rng.random() < 0.25:
+        opts["algorithm"] = rng.choice(["fdbx", "fdxb", "gs"])
+        opts["enforce_q_lims"] = rng.choice([False, True, True])
+        opts["max_iteration"] = 1000 if opts["algorithm"] == "gs" else 100
     return net, opts, malformed
 
 
@@ -97,6 +117,7 @@ def _oracle(ctx, net, opts, case, bypassed=False):
     """the laws of the property on the result tables"""
     bad = []
     known = []
+    known0 = []
     rb = net.res_bus
     vdl = opts["voltage_depend_loads"]
     enforce = bool(opts["enforce_q_lims"])
@@ -146,7 +167,11 @@ def _oracle(ctx, net, opts, case, bypassed=False):
         else:
             if q > qmax + TOLQ or q < qmin - TOLQ:
                 # recorded defect: every bus is a reference bus -> solver and q-limit loop are bypassed (guard G04b false)
-                (known if bypassed else bad).append("gen %d: q %r outside [%r, %r] with enforce_q_lims" % (i, q, qmin, qmax))
+                if (not bypassed) and opts.get("algorithm", "nr") in ("fdbx", "fdxb", "gs") and (abs(qmin) <= 1e-8 or abs(qmax) <= 1e-8):
+                    # recorded defect (runpf_pypower.py non_refs proxy): a q limit of exactly 0 exempts the gen from enforcement
+                    known0.append("gen %d: q %r outside [%r, %r] with enforce_q_lims, algorithm %s" % (i, q, qmin, qmax, opts["algorithm"]))
+                else:
+                    (known if bypassed else bad).append("gen %d: q %r outside [%r, %r] with enforce_q_lims" % (i, q, qmin, qmax))
             if not held and not (abs(q - qmax) <= TOLQ or abs(q - qmin) <= TOLQ):
                 bad.append("gen %d: bus vm %r != setpoint %r but q %r is not at a limit [%r, %r]" % (i, rb.vm_pu.at[b], vset, q, qmin, qmax))
     for tab in ("sgen", "storage"):
@@ -177,12 +202,23 @@ def _oracle(ctx, net, opts, case, bypassed=False):
         b = int(t.bus.values[pos])
         v = float(rb.vm_pu.at[b])
         ratio = (v * net.bus.vn_kv.at[b] / t.vn_kv.values[pos]) ** 2
-        ep = t.step.values[pos] * t.p_mw.values[pos] * ratio * on
-        eq = t.step.values[pos] * t.q_mvar.values[pos] * ratio * on
+        if "step_dependency_table" in t and bool(t.step_dependency_table.values[pos]):
+            # power of the whole step from net.shunt_characteristic_table (id, step)
+            ct = net.shunt_characteristic_table
+            row = ct[(ct.id_characteristic == t.id_characteristic_table.values[pos]) & (ct.step == t.step.values[pos])]
+            ep = float(row.p_mw.values[0]) * ratio * on
+            eq = float(row.q_mvar.values[0]) * ratio * on
+            ctx.count("table_shunts_checked")
+        else:
+            ep = t.step.values[pos] * t.p_mw.values[pos] * ratio * on
+            eq = t.step.values[pos] * t.q_mvar.values[pos] * ratio * on
         if abs(net.res_shunt.p_mw.at[i] - ep) > 1e-9 * max(1, abs(ep)) or abs(net.res_shunt.q_mvar.at[i] - eq) > 1e-9 * max(1, abs(eq)):
             bad.append("shunt %d: result %r,%r != step*p*(v*vn_bus/vn)^2 %r,%r" % (i, net.res_shunt.p_mw.at[i], net.res_shunt.q_mvar.at[i], ep, eq))
     for w in bad[:3]:
         ctx.violation("spec", w, case)
+    for w in known0[:1]:
+        ctx.violation("C04-pypower-qlim-zero-limit", w, case)
+        ctx.count("known:C04-pypower-qlim-zero-limit")
     for w in known[:1]:
         ctx.violation("C04-qlim-bypass", w + " (all buses are reference buses: solver and q-limit loop bypassed)", case)
         ctx.count("known:C04-qlim-bypass")
@@ -222,9 +258,14 @@ def _one(ctx, rng, sterms, spend, qterms, qpend, given=None, sample=False):
         R.ppci_to_pfsoln = orig
     ctx.count("outcome_" + (err or "ok"))
     ctx.count("enforce_%s" % opts["enforce_q_lims"])
+    ctx.count("algorithm_%s_%s" % (opts.get("algorithm", "nr"), err or "ok"))
     g_final = None
-    bypassed = err is None and "gen" not in net._ppc["internal"]
-    if err is None and "gen" not in net._ppc["internal"]:
+    nr_alg = opts.get("algorithm", "nr") == "nr"
+    bypassed = err is None and nr_alg and "gen" not in net._ppc["internal"]
+    if err is None and not nr_alg:
+        rec = []                                   # the PYPOWER algorithms have their own loop (runpf_pypower.py): oracle only
+        bypassed = set(int(t) for t in net._ppc["bus"][:, BUS_TYPE] if int(t) != 4) == {3}
+    elif err is None and "gen" not in net._ppc["internal"]:
         ctx.count("pf_bypassed_only_reference_buses")      # powerflow.py bypasses the solver: nothing to observe in the loop
         rec = []
     elif err is None:
